@@ -59,11 +59,11 @@ theorem http_isHttp {env : Env} {s s' : HttpSt} {d x : Bytes}
   unfold httpRepl at h
   split at h
   · cases h
-  · simp only [Except.ok.injEq, Prod.mk.injEq] at h
-    obtain ⟨_, h⟩ := h
-    split at h
-    · simp only [Option.some.injEq] at h; exact ⟨env, h.symm⟩
-    · cases h
+  · split at h
+    · simp only [Except.ok.injEq, Prod.mk.injEq, Option.some.injEq] at h
+      exact ⟨env, h.2.symm⟩
+    · simp only [Except.ok.injEq, Prod.mk.injEq] at h
+      exact absurd h.2 (by simp)
 
 theorem pr_http {env : Env} {s s' : HttpSt} {d : Bytes} {r : Option Bytes} (ci : ClientInfo)
     (h : httpRepl env s d = .ok (s', r)) : PortRule2 ci ci r d := by
